@@ -92,6 +92,14 @@ func (t *Trimmer) markService(svc *parser.Service, ast *parser.Thrift, filename 
 						break
 					}
 				}
+			} else {
+				// the base service is defined in the same file
+				for _, service := range ast.Services {
+					if service.Name == svc.Extends {
+						t.markService(service, ast, filename)
+						break
+					}
+				}
 			}
 		}
 	}
